@@ -2,12 +2,13 @@
 """Regenerate twzsa/known_names.py from /repo's current tree (run after a fix: commit in /repo)."""
 import ast, os, json, hashlib, sys
 sys.path.insert(0, os.path.dirname(os.path.dirname(os.path.abspath(__file__))))
-from twzsa.roles import fingerprint  # noqa: E402
+from twzsa.roles import fingerprint, loose_fingerprint  # noqa: E402
 from twzsa.loader import canonical  # noqa: E402
 
 names = set()
 classes = set()
 hashes = {}
+loose = {}
 for dp, dn, fns in os.walk("/repo/tawazi"):
     for f in fns:
         if f.endswith(".py"):
@@ -16,9 +17,11 @@ for dp, dn, fns in os.walk("/repo/tawazi"):
                 if isinstance(n, (ast.FunctionDef, ast.AsyncFunctionDef)):
                     names.add(n.name)
                     hashes.setdefault(fingerprint(n), []).append(n.name)
+                    loose.setdefault(loose_fingerprint(n), []).append(n.name)
                 elif isinstance(n, ast.ClassDef):
                     classes.add(n.name)
 uniq = {h: v[0] for h, v in hashes.items() if len(set(v)) == 1}
+uniq_loose = {h: v[0] for h, v in loose.items() if len(set(v)) == 1}
 p = os.path.join(os.path.dirname(os.path.dirname(os.path.abspath(__file__))), "twzsa", "known_names.py")
 HEAD = '''"""Names (and body fingerprints) of the functions, methods and nested functions of tawazi that existed when the rules were written.
 
@@ -28,6 +31,7 @@ HEAD = '''"""Names (and body fingerprints) of the functions, methods and nested 
   is that function under a new name: it is read under its usual name (twzsa/roles.py).
 Regenerate with tools/gen_known_names.py after a fix commit in /repo."""
 '''
-open(p, "w").write(HEAD + "KNOWN_FUNCTIONS = frozenset(%s)\nKNOWN_CLASSES = frozenset(%s)\nBODY_FINGERPRINT = %s\n"
-                   % (json.dumps(sorted(names)), json.dumps(sorted(classes)), json.dumps(dict(sorted(uniq.items())), indent=0)))
+open(p, "w").write(HEAD + "KNOWN_FUNCTIONS = frozenset(%s)\nKNOWN_CLASSES = frozenset(%s)\nBODY_FINGERPRINT = %s\nLOOSE_FINGERPRINT = %s\n"
+                   % (json.dumps(sorted(names)), json.dumps(sorted(classes)), json.dumps(dict(sorted(uniq.items())), indent=0),
+                      json.dumps(dict(sorted(uniq_loose.items())), indent=0)))
 print(len(names), "names,", len(uniq), "fingerprints")
